@@ -74,6 +74,10 @@ def run_shard(ctx):
             continue
         if asan:
             ctx.san_check(lambda: dict(cfg, read=None, at="construction"))
+        ap = M.attr_problems(cfg, ad)
+        if ap:
+            ctx.case(("attrs", str(cfg)))
+            ctx.violation("adapter-attributes", "; ".join(ap) + f"; adapter={ad!r}", M.case_dict(cfg, None), klass=cfg["type"])
         for _ in range(8):
             read = M.gen_read(rng, cfg, ad.sequence, short_bias=asan)
             one(ctx, cfg, ad, read)
@@ -183,6 +187,12 @@ def replay(ctx, case):
     ad = M.build(cfg)
     if ad is None:
         ctx.mark_inconclusive("configuration rejected")
+        return
+    ap = M.attr_problems(cfg, ad)
+    if ap:
+        ctx.case(("attrs", str(cfg)))
+        ctx.violation("adapter-attributes", "; ".join(ap), M.case_dict(cfg, None))
+    if case.get("read") is None:
         return
     one(ctx, cfg, ad, case["read"])
     ctx.san_check(case)
